@@ -1,8 +1,9 @@
 (* Actual/EmbedActual.v — the quirk vectors claimed for the current tree (C19); tied to the code by the
    correspondence check, listed flag by flag in known.d/C19.json. *)
-From TL Require Import Lib.Base Model.PerfConcat Model.StatelessCls Model.MethodProp Model.CondVerbose.
+From TL Require Import Lib.Base Model.PerfConcat Model.StatelessCls Model.MethodProp Model.CondVerbose Model.RegexLoop.
 
 Definition concat_actual : cquirks := {| q_concat_global_names := true; q_concat_dedup_by_name := true; q_concat_name_table := true |}.
 Definition stateless_actual : squirks := {| q_sl_exempt_test_name := true; q_sl_exempt_mixin_name := true; q_sl_lookup_by_name := true |}.
 Definition method_actual : mquirks := {| q_mp_class_body_only := true |}.
 Definition cv_actual : vquirks := {| q_cv_per_enclosing_if := true |}.
+Definition rx_actual : rquirks := {| q_rx_file_wide_names := true |}.
